@@ -17,7 +17,15 @@ func init() {
 		Floors:      map[string]int64{"records_decoded": 100},
 		Jobs: func(tier string, seed int64) []Job {
 			n := pick(tier, 40000, 1200000)
-			return chunk("main", "prod", n, pick(tier, 2500, 37500), Job{Timeout: 30 * time.Minute})
+			js := chunk("main", "prod", n, pick(tier, 2500, 37500), Job{Timeout: 30 * time.Minute})
+			// the process around the library is no input of the statement: go-test-mode processes (with and without a
+			// -bench... argument), production processes with DEBUG in their environment or started by a debugger
+			m := pick(tier, 2500, 37500)
+			js = append(js, Job{Sub: "main", Mode: "test", From: 0, To: m, Timeout: 30 * time.Minute})
+			js = append(js, Job{Sub: "main", Mode: "test", From: m, To: 2 * m, Args: []string{"-benchlabel=nightly"}, Timeout: 30 * time.Minute})
+			js = append(js, Job{Sub: "main", Mode: "prod", From: 2 * m, To: 3 * m, Env: []string{"DEBUG=1"}, Args: []string{"-benchlabel=nightly"}, Timeout: 30 * time.Minute})
+			js = append(js, Job{Sub: "main", Mode: "prod", From: 3 * m, To: 4 * m, Parent: "dlv", Timeout: 30 * time.Minute})
+			return js
 		},
 	})
 	register(&Plan{
